@@ -310,21 +310,21 @@ Proof. exact getitem_nd_empty_axis. Qed.
    insert(index, q1..qN) splices all axes of q1..qN, in order, before axis index (negative
    index counts from the end, anything outside [-ndim, ndim] is an IndexError);
    append = concatenation; squeeze() removes exactly the one-point axes. *)
-Theorem insert_splices_the_axes : forall (T : Type) (NT : Num T) (p : list (axis T)) (index : Z)
+Theorem insert_splices_the_axes : forall (T : Type) (p : list (axis T)) (index : Z)
   (parts : list (list (axis T))),
   (- zlen p <= index <= zlen p)%Z ->
   insert p index parts = Ok (splice p (Z.to_nat (norm_pos (zlen p) index)) (concat parts)).
 Proof. exact (@insert_spec). Qed.
 Print Assumptions insert_splices_the_axes.
-Theorem insert_rejects_other_positions : forall (T : Type) (NT : Num T) (p : list (axis T)) (index : Z)
+Theorem insert_rejects_other_positions : forall (T : Type) (p : list (axis T)) (index : Z)
   (parts : list (list (axis T))),
   (index < - zlen p \/ zlen p < index)%Z -> insert p index parts = IndexErr.
 Proof. exact (@insert_out_of_range). Qed.
-Theorem append_concatenates_the_axes : forall (T : Type) (NT : Num T) (p : list (axis T))
+Theorem append_concatenates_the_axes : forall (T : Type) (p : list (axis T))
   (parts : list (list (axis T))), append p parts = Ok (p ++ concat parts).
 Proof. exact (@append_spec). Qed.
 Print Assumptions append_concatenates_the_axes.
-Theorem squeeze_removes_exactly_the_one_point_axes : forall (T : Type) (NT : Num T) (p : list (axis T)),
+Theorem squeeze_removes_exactly_the_one_point_axes : forall (T : Type) (p : list (axis T)),
   squeeze p AxAll = Ok (filter nondegen p).
 Proof. exact (@squeeze_all). Qed.
 Print Assumptions squeeze_removes_exactly_the_one_point_axes.
